@@ -142,6 +142,23 @@ struct Shared {
 }
 
 
+/// With the `background_rotation` build the archive shift runs on a thread
+/// spawned by the roller: the directory is compared with the model only while
+/// no such thread is alive (and always at the end of a phase, when the kernel
+/// has waited for every spawned thread).
+pub fn bg_rotation_in_flight() -> bool {
+    cfg!(feature = "background_rotation") && kernel::current().map(|k| k.thread_alive("bg.rotate")).unwrap_or(false)
+}
+
+pub fn wait_for_bg_rotation() {
+    if cfg!(feature = "background_rotation") {
+        if let Some(k) = kernel::current() {
+            let k2 = k.clone();
+            k.block_here("bg.join", &move || !k2.thread_alive("bg.rotate"));
+        }
+    }
+}
+
 fn data_attr(fault_mode: bool) -> Attr {
     if fault_mode {
         Attr { prop: "C08", data: "C08-I3", other_prop: "C08", other: "C08-I3", sig: ":after-fault" }
@@ -826,7 +843,9 @@ fn do_append(sh: &Arc<Shared>, appender: &RollingFileAppender, id: RecId, len: u
                 }
                 _ => {}
             }
-            if !dirty {
+            if bg_rotation_in_flight() {
+                sh.sink.probe("checks_deferred_background_rotation", 1);
+            } else if !dirty {
                 let at = attr_for(sh);
                 if *sh.lenient.lock().unwrap() {
                     if others == 0 {
@@ -1021,6 +1040,7 @@ pub fn execute(scn: &Scn, opts: &ExecOpts) -> Outcome {
                 let first = pi == 0;
                 vec![Box::new(move || {
                     kernel::note("restart", &format!("append={} dirty={}", append, dirty));
+                    wait_for_bg_rotation();
                     let old = live.lock().unwrap().appender.take();
                     if let Some(a) = old {
                         if dirty {
